@@ -558,3 +558,9 @@ def r20_9(ctx):
               detail="a chained constraint on horizon quantities that is violated at a node of a fixed horizon is folded to 'true' by CasADi and dropped silently",
               expected="instances that evaluate to a constant are split with comparison_links(original constraint) and every link must hold (else raise)",
               found="add_constraints of %s hand eval_at_*(stage, c, ..) straight to opti.subject_to" % ", ".join(missing), fi=P.own_method("OptiWrapper", "subject_to"))
+
+
+@rule("R20.10", min_instances=5, desc="ill-formed placement arguments are rejected when the constraint is declared: unknown grid names, a signal on grid 'point', an include_last that is neither a boolean nor 'auto' (shared with C04: R04.8, simulated Stage.subject_to)")
+def r20_10(ctx):
+    from .c04 import r04_8
+    r04_8(ctx)
